@@ -934,3 +934,37 @@ def session_boundary(prog, rep, rule="session-boundary"):
         else:
             rep.ok(rule, f"{fq}: no write, truncate or serialisation into self.{'/'.join(sorted(handles))}", nontrivial=True)
     rep.floor(rule, n, 2)
+
+
+def eq_on_decoded_content(ct: Container, rep, rule="eq-on-decoded-content"):
+    """Tdf.__eq__ compares what the files CONTAIN: everything it reaches (methods and properties of Tdf, transitively) obtains block
+    content through the decoders (`<Class>._build(handle, ..)`), never as raw bytes read from the handle - stored bytes include the
+    format's don't-care bytes (pads, reserved words, what follows a string's terminator), so two files with equal content would
+    compare unequal."""
+    tdf = ct.tdf
+    eq = tdf.get("__eq__")
+    if eq is None:
+        raise AnalysisError("anchor vanished: Tdf.__eq__")
+    by_name = {}
+    for f in tdf.all_funcs():
+        if f.kind != "setter":
+            by_name.setdefault(f.name, []).append(f)
+    seen, todo = set(), [eq]
+    raw = []
+    while todo:
+        f = todo.pop()
+        if id(f) in seen:
+            continue
+        seen.add(id(f))
+        for x in walk_no_nested(f.node):
+            if isinstance(x, ast.Attribute) and x.attr in by_name and isinstance(x.ctx, ast.Load) and isinstance(x.value, ast.Name):
+                todo += by_name[x.attr]
+            if isinstance(x, ast.Call) and isinstance(x.func, ast.Attribute) and x.func.attr in ("read", "readinto", "readline", "readlines", "read_bytes") \
+                    and (ct.is_handle(x.func.value) or (isinstance(x.func.value, ast.Attribute) and x.func.value.attr == "file_path")) and f.name not in ("__enter__", "_open_and_parse"):
+                raw.append((f, x))
+    if raw:
+        f, x = raw[0]
+        rep.fail(rule, MOD(ct), f"Tdf.{f.name}", x, f"`{norm(x)[:60]}` hands raw stored bytes to the comparison of two files (reached from Tdf.__eq__): bytes the format leaves undefined "
+                 "make files with equal content compare unequal", construct=f"Tdf.__eq__ reaches raw read in {f.name}")
+    else:
+        rep.ok(rule, f"Tdf.__eq__: {len(seen)} methods/properties reached, none reads raw bytes from the handle (content comes from the decoders)", nontrivial=True)
